@@ -165,7 +165,7 @@ def g_pump(modes):
     return jobs
 
 
-def unit_crosscheck(types, seed, n, modes=("strict",)):
+def unit_crosscheck(types, seed, n, modes=("strict",), mutations=0):
     """bounded end-to-end cross-check through Binary.marshal against the reference semantics (never counted as proof)"""
     import os, sys
     from pyvc.harness import ROOT, UnitResult
@@ -174,12 +174,12 @@ def unit_crosscheck(types, seed, n, modes=("strict",)):
 
     u = UnitResult(f"XCHECK/{types[0]}..{types[-1]}")
     u.functions = ["tpmstream.io.binary.marshal:marshal (public API, end to end)"]
-    total, bad = X.sweep(types, seed=seed, n=n, modes=modes)
+    total, bad = X.sweep(types, seed=seed, n=n, modes=modes, mutations=mutations)
     dis = []
     for b in bad[:5]:
         dis.append({"input": {"tpm_type": b["type"], "hex": b["input"], "command_code": b["command_code"], "parameter_encryption": b["enc"], "mode": b["mode"], "how_generated": b["label"]},
                     "detail": f"{b['what']}: {b['detail']}"[:500], "site": b["type"]})
-    u.bounded.append({"name": f"end-to-end/{types[0]}..{types[-1]}", "bound": f"{n} generated well-formed encodings per type plus <=12 single faults each (size fields -1/+1/0, invalid leaf values, truncations, surplus); lists <= 3 elements, buffers <= 6 bytes; seed {seed}",
+    u.bounded.append({"name": f"end-to-end/{types[0]}..{types[-1]}", "bound": f"{n} generated well-formed encodings per type plus <=12 single faults each (size fields -1/+1/0, invalid leaf values, truncations, surplus); lists <= 3 elements, buffers <= 6 bytes; {mutations} byte-level mutants per well-formed encoding (strict mode); seed {seed}",
                       "evaluations": total, "disagreements": dis})
     u.obligations.append({"name": f"{u.name}/ran", "kind": "bounded-bookkeeping", "site": "", "status": "proved", "backend": "bookkeeping", "seconds": 0, "model": None, "detail": f"{total} inputs compared"})
     return u
@@ -189,11 +189,12 @@ def g_crosscheck(tier, seed, modes=("strict",), only_frames=False):
     L0 = layout()
     types = [] if only_frames else [t for t in sorted(L0["structs"]) + sorted(L0["tpm2b"]) if t != "TPM2B_ENCRYPTED_PARAM"] + ["UINT8", "INT16", "UINT32", "UINT64", "TPM_CC", "TPMI_YES_NO", "TPM_HANDLE"]
     n = 12 if tier == "thorough" else 2
-    jobs = [(unit_crosscheck, (ch, seed, n, modes)) for ch in chunks(types, 12)]
+    mut = 12 if tier == "thorough" else 2
+    jobs = [(unit_crosscheck, (ch, seed, n, modes, mut)) for ch in chunks(types, 12)]
     nf = 400 if tier == "thorough" else 40
     for t in ("Command", "Response", "CommandResponseStream"):
         for k in range(4):
-            jobs.append((unit_crosscheck, ([t], seed * 31 + k, nf // 4, modes)))
+            jobs.append((unit_crosscheck, ([t], seed * 31 + k, nf // 4, modes, mut * 2)))
     return jobs
 
 
